@@ -119,6 +119,7 @@ pub enum K {
     Stream(crate::exec::StreamK),
     Trans(crate::transient::TransK),
     Sig(crate::sig::SigK),
+    Comp(crate::composite::CompK),
     /// insertion failed before a kind-specific state made sense
     Failed,
 }
@@ -135,6 +136,7 @@ impl K {
             K::Stream(_) => "stream",
             K::Trans(_) => "transient",
             K::Sig(_) => "signals",
+            K::Comp(_) => "composite",
             K::Failed => "failed",
         }
     }
